@@ -86,6 +86,30 @@ for k, v in EXTRA10.items():
     if k in P:
         P[k]["text"] += v
 
+# round 11 (DESIGN.md 8.6)
+EXTRA11 = {
+ "C01": " Every dispatcher on the dynamic type of the default logger has an emitting arm for *Entry and *logimp (R01.8); the options of a registration work on a local of that call (R17.5).",
+ "C02": " Destinations are fetched by the sink only (R02.2); no call through a nil writer set (R02.5); R08.1/R09.2 are obligations here.",
+ "C03": " Add/set operations depend only on the writer given and the receiver's own fields (R03.3); no call through a nil writer set (R03.4); R10.1/R10.3/R08.1 are obligations here.",
+ "C04": " The encoder only appends (R04.10); a float printer never compares the value with 0 to decide a sign (R04.8); AppendFormat stands between quotes (R04.2); R11.1 and R07.3 are obligations here.",
+ "C05": " As C04 for logfmt (R05.11, R05.8, R05.2); the prefix pushed for a value is the dotted key on every feasible way (R05.5); R11.1 and R07.3 are obligations here.",
+ "C06": " R05.1/R05.5 in colored mode, R11.1 and the registration rules of R17.6 are obligations here.",
+ "C07": " R09.1 (engine E10) is an obligation here; attribute lists are copied whole (R07.4).",
+ "C08": " R03.1 and R10.1/R10.3 are obligations here.",
+ "C11": " AppendFormat stands between quotes in JSON and logfmt mode (R04.2); the pair grammar R05.11 is an obligation here.",
+ "C12": " R01.8 and R03.1 are obligations here; AddFlags/RemoveFlags apply every flag given (R12.9).",
+ "C13": " No call through a nil writer set on the failure path (R13.3).",
+ "C14": " No dispatcher of the package-level verbs invokes an entry point through the logger interfaces (R14.1); R10.1 is an obligation here.",
+ "C15": " Attribute lists are copied whole (R15.3); R03.1 and R09.1 are obligations here.",
+ "C16": " R11.3 (setentry copies zone and layout from the emitting logger) and R10.4 (With-forms return their own child) are obligations here.",
+ "C17": " Nothing behind ParseLevel / the (un)marshallers / String keeps state (R17.2); the options of a registration work on a local of that call (R17.5).",
+ "C18": " Prefix tests work on the path as given, not on a normalised one (R18.2).",
+ "C20": " The sign step dominates every return of the formatter (R20.2).",
+}
+for k, v in EXTRA11.items():
+    if k in P:
+        P[k]["text"] += v
+
 checks, na = [], []
 ids = [json.loads(l)["id"] for l in open(os.path.join(V, "properties.jsonl"))]
 for pid in ids:
